@@ -215,6 +215,12 @@ def monitor_framing(chk, cases):
                 hit("concurrent_%d.json" % i, c, "frame differs/reordered/duplicated: " + c["violations"][0])
             elif not c["complete"]:
                 hit("concurrent_%d.json" % i, c, "concurrent senders: %d of %d messages arrived" % (c["received"], c["expected"]))
+        elif k == "firstsend":
+            if c["violations"]:
+                hit("firstsend_%d.json" % i, c, "frame differs/reordered/duplicated: concurrent first send to a fresh destination "
+                    "(%d callers released together, round %d): %s" % (c["senders"], c["bad_round"], c["violations"][0]))
+            elif not c["complete"] or c["rounds"] < 20:
+                hit("firstsend_%d.json" % i, c, "concurrent first send: %d rounds, %d of %d frames arrived" % (c["rounds"], c["received"], c["expected"]))
         elif k == "burst":
             if c["violations"]:
                 hit("burst_%s_%d.json" % (c["variant"], i), c, "frame differs/reordered/duplicated: burst of %d messages from one caller "
@@ -255,7 +261,7 @@ def nontrivial(c):
         return c["or"].get("um") is not None
     if k == "dec":
         return len(c["frames"]) > 0 or c["origin"] in ("oversize", "topicmix")
-    if k in ("enc", "enchdr", "decbig", "queue", "conc", "faulty", "burst"):
+    if k in ("enc", "enchdr", "decbig", "queue", "conc", "faulty", "burst", "firstsend"):
         return True
     return False
 
@@ -313,7 +319,7 @@ def run(pid, tier, seed):
                                     "differ on this case; the theorems of Props/%s.v rest on it" % pid,
                                mismatching_cases=len(mism), case=slim(c, 4000)), no_input=True)
     ev = [c for c in cases if c["kind"] not in ("mon", "proc")]
-    chk.cov["evaluations"] = len(ev) + sum(c.get("received", 0) for c in cases if c["kind"] in ("conc", "faulty", "burst"))
+    chk.cov["evaluations"] = len(ev) + sum(c.get("received", 0) for c in cases if c["kind"] in ("conc", "faulty", "burst", "firstsend"))
     chk.cov["distinct_nontrivial"] = len(set(vlib.canon_hash(c) for c in ev if nontrivial(c)))
     chk.cov["traces_validated_against_impl"] = len(corr)
     hist = collections.Counter()
@@ -330,7 +336,15 @@ def run(pid, tier, seed):
         else:
             hist[k] += 1
     chk.cov["input_distribution"] = dict(hist)
-    chk.cov["loop_scenarios"] = [dict((k, v) for k, v in c.items() if k != "violations") for c in cases if c["kind"] in ("conc", "faulty", "burst")]
+    chk.cov["loop_scenarios"] = [dict((k, v) for k, v in c.items() if k != "violations") for c in cases if c["kind"] in ("conc", "faulty", "burst", "firstsend")]
+    fs = [c for c in cases if c["kind"] == "firstsend"]
+    if fs:
+        chk.cov["concurrent_first_send"] = dict(processes=len(fs), rounds=sum(c["rounds"] for c in fs),
+                                                fresh_destinations=sum(c["fresh_destinations"] for c in fs),
+                                                callers_released_together=fs[0]["senders"], frames=sum(c["received"] for c in fs),
+                                                violations=sum(len(c["violations"]) for c in fs))
+    elif pid == "C17":
+        chk.violation("firstsend_missing.txt", "the concurrent-first-send scenario produced no result record", no_input=True)
     samples = []
     seen = set()
     for c in ev:
@@ -352,7 +366,8 @@ def run(pid, tier, seed):
                            "combination x sizes 0,1,31,32,33; sequences of legal frames with every truncation; sizes 2048..limit+1 "
                            "(header bytes + lengths to the model, payload by SHA-256); oversize headers; wrong topic presence; noise of "
                            "every length 0..40; queue operation sequences on real loopback nodes; concurrent senders; bursts of one caller to one healthy "
-                           "peer exceeding the queue capacity (small and 64 KiB payloads, strict order + exactly once); each peer in turn "
+                           "peer exceeding the queue capacity (small and 64 KiB payloads, strict order + exactly once); concurrent first send (time-boxed rounds, fresh destination "
+                           "objects per round, 8 callers released by a spinning barrier, per-caller order + exactly once + integrity); each peer in turn "
                            "down / stalled / garbling, every scenario in its own process. Non-trivial = at least one frame handed on, "
                            "or a refusal of an oversize / mis-shaped frame; distinct by content. evaluations also counts loopback messages.")
     return chk.finish(extra_assumptions=ASSUME[pid])
@@ -362,7 +377,8 @@ COMMON = [
     "the models (coq/theories/Net/Frame.v, Handshake.v, Queue.v) are hand-written; they are tied to net/net.go by the differential "
     "run of this check through net/verif_hooks.go and the public API, not by translation",
     "tools/gen_netconsts.py (regex translator) extracts maxBuffLen, the MsgType constants, the shouldHaveTopic table and the syntactic "
-    "flag 'onTimeout contains a panic call' from net/net.go on every run",
+    "flags 'onTimeout contains a panic call' and 'the writer goroutine is started only through a sync.Once in startOnce' from "
+    "net/net.go on every run",
     "TLS 1.3 (crypto/tls), encoding/asn1, encoding/pem, crypto/x509, crypto/ecdsa, SHA-256, sockets and the Go scheduler are not modelled",
     "the case catalogue, mutation positions, payloads and traffic are derived from VERIF_SEED; certificates, TLS sessions and ECDSA "
     "signatures are fresh on every run (crypto/rand), so byte strings differ between runs while classes and verdicts do not",
